@@ -15,6 +15,21 @@ def extra_lines(ds):
             res.append("REOPEN %s %s %s" % (ds.did, w, m))
     for w in dp.WRITERS:
         res.append("SCHEMA %s.sch2.%s %s %s" % (ds.did, w, ds.did, w))
+    # the file as bbolt sees it: key I = be32(number of rows), keys I, S, then one 9-byte
+    # V key per distinct (column, value) pair in ascending order (KeyBytes.v)
+    for w in dp.WRITERS:
+        res.append("RAWKEYS %s.raw.%s %s %s" % (ds.did, w, ds.did, w))
+    # bbolt's cursor order on be64(value index) ‖ be32(row) keys vs KeyBytes.cursor_order
+    import random
+    rng = random.Random(len(ds.rows) * 7919 + len(ds.did))
+    special = [0, 1, 255, 256, 257, 65535, 65536, (1 << 32) - 1, 1 << 32, (1 << 63) - 1, 1 << 63, (1 << 64) - 1, 0x0100000000000000, 0x00ffffffffffffff]
+    pairs = []
+    for _ in range(rng.choice([3, 10, 40])):
+        h = rng.choice(special) if rng.random() < 0.6 else rng.randrange(1 << 64)
+        r = rng.choice([0, 1, 255, 256, 65536, (1 << 32) - 1, (1 << 31), (1 << 24)]) if rng.random() < 0.6 else rng.randrange(1 << 32)
+        pairs.append((h, r))
+    pairs += pairs[:2]                      # a key put twice is stored once
+    res.append("CURSOR %s.cur %d %s" % (ds.did, len(pairs), " ".join("%d %d" % p for p in pairs)))
     return res
 
 
@@ -34,6 +49,11 @@ def extra_compare(ds, impl, model, spec):
                 raise core.FrameworkError("model-internal disagreement on the schema of %s" % ds.did)
             if a != b:
                 fails.append((ds, None, "GetSchema (%s writer, %s): %s" % (w, "after reopen" if tag == "sch2" else "first open", (a or "NONE")[:300]), "schema: %s" % (b or "NONE")[:300]))
+    for k in [("RAWKEYS", "%s.raw.%s" % (ds.did, w)) for w in dp.WRITERS] + [("CURSOR", "%s.cur" % ds.did)]:
+        a, b = impl.get(k), model.get(k)
+        if a != b and not (nul and k[0] == "RAWKEYS"):
+            fails.append((ds, None, "%s: %s" % ("keys of the written file (value of I, header keys, number and order of V keys)" if k[0] == "RAWKEYS" else "bbolt cursor order of be64‖be32 keys", (a or "NONE")[:300]),
+                          "KeyBytes.v: %s" % (b or "NONE")[:300]))
     return fails
 
 
